@@ -320,6 +320,28 @@ def package_lints(model, rep, rule, paths):
                 rep.violation(rule, f'{fname}:unmangled-store[{x.attr}]',
                               f'`{_ast.unparse(x)} = ...` in a module-level function is not name-mangled: it sets a new attribute `{x.attr}` instead of the '
                               f'private field `_<Class>{x.attr}` the class reads, which keeps its old value', f'{mod}:{x.lineno}')
+    # a table of time-variable names (tuple / list / dict keys, >= 3 known names) holding a string that is no variable name: what a
+    # missing comma between two adjacent literals produces ('load torque' 'pwm' is the single string 'load torquepwm')
+    from sa.spec.variables import VARIABLE_KINDS as _VK0
+    _VK = set(_VK0) | {'pwm'}
+    for mod_, tree_ in model.trees.items():
+        if not any(p_ in mod_ for p_ in paths):
+            continue
+        for x in _ast.walk(tree_):
+            elts = x.elts if isinstance(x, (_ast.Tuple, _ast.List, _ast.Set)) else (x.keys if isinstance(x, _ast.Dict) else None)
+            if not elts:
+                continue
+            strs = [e.value for e in elts if isinstance(e, _ast.Constant) and isinstance(e.value, str)]
+            if len(strs) != len(elts):
+                continue
+            known = [t for t in strs if t in _VK]
+            odd = [t for t in strs if t not in _VK and t != 'time']
+            if len(known) >= 3 and odd and any(t.startswith(k) and t[len(k):] in _VK for t in odd for k in _VK):
+                n += 1
+                rep.violation(rule, f'{mod_.split("/")[-1]}:merged-names@{x.lineno}',
+                              f'the table of time variables at line {x.lineno} holds {odd[0]!r}, which is two variable names run together (a comma '
+                              f'is missing between two adjacent string literals): both variables drop out of whatever the table drives',
+                              f'{mod_}:{x.lineno}')
     # `super(type(self), ...)` / `super(self.__class__, ...)`: for an instance of a subclass the lookup starts above the SUBCLASS and
     # finds this very method again - unbounded recursion; the first argument must be the class the code is written in
     for cname, ci in model.classes.items():
